@@ -161,7 +161,7 @@ def deep_equal(seq1: Iterable[Any],
 
                     elif isinstance(value1, float):
                         if math.isnan(value1):
-                            if not math.isnan(value2):
+                            if not math.isnan(as_double(value2)):
                                 return False
                         elif math.isinf(value1):
                             if value1 != value2:
